@@ -31,9 +31,9 @@ def scan_assumptions(text):
     return res
 
 
-def run_unit(path, rlimit=None, seed=None, extra_args=()):
+def run_unit(path, rlimit=None, seed=None, extra_args=(), quarantine=()):
     t0 = time.time()
-    u = Unit(path)
+    u = Unit(path, quarantine=quarantine)
     res = dict(unit=u.name, template=os.path.relpath(path, VERIF), status='undecided', reason='',
                functions=[], failures=[], verified=0, errors=0, rewrites=[], assumptions={},
                extracted=[], mustfail=[], wall_s=0.0, smt_ms=0, props=[])
@@ -90,7 +90,28 @@ def run_unit(path, rlimit=None, seed=None, extra_args=()):
             raw.append(l)
     res['wall_s'] = time.time() - t0
     crate = 'u_' + u.name
+    def _retry_quarantined(errs_):
+        # front-end errors confined to the bodies of extracted functions: verify the rest of the unit with those
+        # functions reduced to their contract (they are reported undecided), instead of losing the whole unit
+        names = set()
+        for d in errs_:
+            prim_ = [s for s in d.get('spans', []) if s.get('is_primary')] or d.get('spans', [])
+            if not prim_:
+                return None
+            l = _origin(u, prim_[0]['line_start'], prim_[0])
+            if l is None or not l.fn or l.fn in ('arm', 'slice', 'macro', 'quote') or l.origin[0] == 'tmpl':
+                return None
+            names.add(l.fn)
+        names -= set(quarantine)
+        if not names or len(quarantine) + len(names) > 4:
+            return None
+        return run_unit(path, rlimit, seed, extra_args, quarantine=tuple(sorted(set(quarantine) | names)))
+
     if js is None:
+        fe = [d for d in diags if d.get('level') == 'error' and not d['message'].startswith('aborting due to')]
+        r2 = _retry_quarantined(fe) if fe else None
+        if r2 is not None:
+            return r2
         res['reason'] = 'verus produced no JSON (front-end failure): ' + ' | '.join(
             [d['message'] for d in diags if d.get('level') == 'error'][:5] + raw[:3])
         return res
@@ -108,6 +129,9 @@ def run_unit(path, rlimit=None, seed=None, extra_args=()):
     res['errors'] = vr.get('errors', 0)
     errs = [d for d in diags if d.get('level') == 'error' and not d['message'].startswith('aborting due to')]
     if vr.get('encountered-vir-error') or (vr.get('encountered-error') and not res['functions'] and not vr.get('verified')):
+        r2 = _retry_quarantined(errs) if errs else None
+        if r2 is not None:
+            return r2
         res['reason'] = 'verus front-end error: ' + ' | '.join(_fmt(d, u) for d in errs[:5])
         return res
     # classify verification errors
@@ -160,12 +184,18 @@ def run_unit(path, rlimit=None, seed=None, extra_args=()):
     else:
         res['status'] = 'undecided'
         res['reason'] = 'verus reported errors that could not be classified: ' + ' | '.join(raw[:5])
-    res['soft_undecided'] = list(u.soft_undecided) + list(undecided)
+    res['soft_undecided'] = [x['msg'] for x in u.soft_undecided] + list(undecided)
+    # which properties the indecision concerns: None = the whole unit
+    if undecided or any(x['props'] is None for x in u.soft_undecided):
+        res['soft_props'] = None
+    else:
+        res['soft_props'] = sorted(set(p_ for x in u.soft_undecided for p_ in x['props']))
+    soft_msgs = [x['msg'] for x in u.soft_undecided]
     if res['status'] == 'ok' and u.soft_undecided:
         res['status'] = 'undecided'
-        res['reason'] = ' | '.join(u.soft_undecided)
+        res['reason'] = ' | '.join(soft_msgs)
     elif u.soft_undecided:
-        res['reason'] = (res['reason'] + ' | ' if res['reason'] else '') + ' | '.join(u.soft_undecided)
+        res['reason'] = (res['reason'] + ' | ' if res['reason'] else '') + ' | '.join(soft_msgs)
     # discount mustfail fns from the error count
     res['errors'] = max(0, res['errors'] - len(set(mf_ok)))
     return res
